@@ -393,12 +393,26 @@ def s10_region(bpj, harvest):
 def s16_region(bpj, harvest):
     """known finding S16: the conflict graph -- producers of one signal name that share a consumer must
     arrive on different colours -- is not 2-colourable (e.g. three independent producers of one signal at
-    one consumer, or an odd cycle across consumers); the compiler only logs this and proceeds.
+    one consumer, an odd cycle across consumers, or two groups that must be kept apart at one consumer but
+    share a producer); the compiler only logs this and proceeds.
     Producers summed on purpose by one wire merge count as one."""
     groups = {}
+    members = {}
     for src, snk, sig, col, *m in harvest["edges"]:
         mid = m[0] if m else None
         groups.setdefault((snk, sig), set()).add(("merge", mid, sig) if mid else ("src", src, sig))
+        if mid:
+            members.setdefault(("merge", mid, sig), set()).add(src)
+    # two groups that must be kept apart at one consumer but contain the same producer (a producer has one
+    # colour): no assignment of colours can separate them
+    for nodes in groups.values():
+        nodes = sorted(nodes)
+        for i, a in enumerate(nodes):
+            for b_ in nodes[i + 1:]:
+                ma = members.get(a, {a[1]} if a[0] == "src" else set())
+                mb = members.get(b_, {b_[1]} if b_[0] == "src" else set())
+                if ma & mb:
+                    return True
     adj = {}
     for nodes in groups.values():
         nodes = sorted(nodes)
